@@ -23,7 +23,7 @@ func Parse(tmpl string) (Compiler, error) {
 	}
 	tokens, verb := tokenize(tmpl[1:])
 
-	p := parser{tokens: tokens}
+	p := parser{tokens: tokens, exactSlash: true}
 	segs, err := p.topLevelSegments()
 	if err != nil {
 		return template{}, InvalidTemplateError{tmpl: tmpl, msg: err.Error()}
@@ -115,6 +115,10 @@ func tokenize(path string) (tokens []string, verb string) {
 type parser struct {
 	tokens   []string
 	accepted []string
+	// exactSlash makes a "/" token match only the "/" terminal. Parse always sets it: without it
+	// accept lets a "/" token stand in for any punctuation terminal, which reads an empty segment
+	// ("//", "/a//b", "/{a=/b}") as the wildcard "*".
+	exactSlash bool
 }
 
 // topLevelSegments is the target of this parser.
@@ -248,7 +252,7 @@ func (p *parser) accept(term termType) (string, error) {
 	t := p.tokens[0]
 	switch term {
 	case "/", "*", "**", ".", "=", "{", "}":
-		if t != string(term) && t != "/" {
+		if t != string(term) && (p.exactSlash || t != "/") {
 			return "", fmt.Errorf("expected %q but got %q", term, t)
 		}
 	case typeEOF:
